@@ -322,7 +322,74 @@ def units(tier, seed):
             us.append(plant_cfg(label, eu, pt, L, T))
     from . import c02dh
     us += c02dh.units(tier)
+    # the annual series still hold what the surface plant integrated once the economics step has run (the report prints them afterwards)
+    for kind in (('electricity', 'direct-use', 'chiller') if tier == 'quick' else ('electricity', 'direct-use', 'chiller', 'heat-pump', 'district-heating', 'cogen-topping')):
+        for em in ((3,) if tier == 'quick' else (1, 2, 3)):
+            us.append({'harness': 'after-economics', 'kind': kind, 'em': em, 'L': 2, 'K': 1})
     return us
+
+
+def run_after_econ(unit):
+    """real Economics.Calculate on a prepared real model (rates, totals and the product energy series symbolic): every annual energy
+    series of the surface plant (...kWh...) holds afterwards exactly what it held before - the figures the report prints are the integrals
+    the surface plant computed, not something the economics step rescaled on the way."""
+    from . import c01, c04
+    from .. import econ
+    kind, em, L, K = unit['kind'], unit['em'], unit['L'], unit['K']
+    cfg = dict(c04.cfg_of(kind, L, K, False), em=em)
+    log = harness.UnitLog(dict(cfg, harness='after-economics'))
+    spec = c01.calc_spec(cfg)
+
+    def series(m):
+        out = {}
+        for k, p in vars(m.surfaceplant).items():
+            v = getattr(p, 'value', None)
+            if 'kwh' in k.lower() and hasattr(v, '__len__'):
+                out[k] = list(v)
+        return out
+
+    def run(vals, symbolic):
+        m = c04.prepared(cfg).reset()
+        v = dict(vals)
+        v.update({'economics.totalcapcost.Valid': True, 'economics.oamtotalfixed.Valid': True})
+        econ.install(m, v)
+        before = series(m)
+        econ.run_econ(m, symbolic=symbolic)
+        after = series(m)
+        obs = []
+        for k in before:
+            obs.append((f'economics step leaves {k} with the same number of entries', len(after.get(k, [])) == len(before[k])))
+            for i, (a, b) in enumerate(zip(before[k], after.get(k, []))):
+                obs.append((f'economics step leaves {k}[{i}] as the surface plant computed it', eq(a, b) if (core.is_sym(a) or core.is_sym(b)) else bool(a == b)))
+        return obs
+
+    def concrete(inp, only=None):
+        try:
+            obs = run(econ.concrete_vals(spec, inp), False)
+        except ZeroDivisionError:
+            return False, {'note': 'division by zero in floats'}
+        bad = [n for n, ok in obs if not ok and (only is None or n == only)]
+        return bool(bad), {'changed by the economics step': bad[:6]}
+
+    def fn():
+        vals, zv = econ.make_symbolic(spec)
+        return zv, run(vals, True)
+    n = 0
+    for pr in core.explore(fn, max_paths=5000):
+        log.path(pr)
+        n += 1
+        if pr.error is not None:
+            raise pr.error
+        if pr.aborted:
+            continue
+        zv, obs = pr.value
+        if n <= 5:
+            harness.reachable(log, pr.ctx, 2000)
+        else:
+            log['reachable'] += 1
+        for name, cond in obs:
+            harness.discharge(log, pr.ctx, name, cond, zv, lambda inp, name=name: concrete(inp, name), timeout_ms=10000, sample=(n == 1 and name.endswith('[0] as the surface plant computed it')))
+    yield log.result()
 
 
 def run_unit(unit):
@@ -330,6 +397,8 @@ def run_unit(unit):
         yield from run_integrator(unit)
     elif unit['harness'] == 'plant':
         yield from run_plant(unit)
+    elif unit['harness'] == 'after-economics':
+        yield from run_after_econ(unit)
     else:
         from . import c02dh
         yield from c02dh.run_unit(unit)
